@@ -168,6 +168,10 @@ def run_invocation(spec):
                       zombies=[p.pid for p in kernel.procs.values() if p.state == "zombie"])
             if inject.get("break_stdout"):
                 kernel.stdout_broken = True
+            if inject.get("exits_after"):
+                # the other tasks finish (or die) while Conductor is busy aborting
+                kernel.st["p_line"] = 1.0
+                kernel.st.setdefault("p_exit", {})["line"] = inject["exits_after"]
             signal.raise_signal(sig_by_name[inject["signal"]])
             return None
         kernel.line_point()
